@@ -780,7 +780,7 @@ func (in *inst) roundTrip(lst, src string, w []byte, wait time.Duration, hdr map
 		defer qt.Close()
 		ctx, cancel := context.WithDeadline(context.Background(), deadline)
 		defer cancel()
-		c, err := qt.Dial(ctx, &net.UDPAddr{IP: net.IPv4(127, 0, 0, 1), Port: port}, &tls.Config{InsecureSkipVerify: true, NextProtos: []string{"doq"}}, &quic.Config{})
+		c, err := qt.Dial(ctx, &net.UDPAddr{IP: net.IPv4(127, 0, 0, 1), Port: port}, &tls.Config{InsecureSkipVerify: true, NextProtos: []string{"doq"}}, &quic.Config{KeepAlivePeriod: 300 * time.Millisecond})
 		if err != nil {
 			return nil, 0, err
 		}
